@@ -245,7 +245,7 @@ def law_case(draw, shape_only=False):
 
 def plan(tier, seed):
     jobs = []
-    n = scaled(960 if tier == "quick" else 6400)
+    n = scaled(2560 if tier == "quick" else 25600)
     shards = 16 if tier == "quick" else 32
     for k in range(shards):
         jobs.append({"sub": "law", "seed": seed, "shard": k, "n": max(1, n // shards), "cost": 20})
